@@ -33,7 +33,11 @@ anywhere, channel-major; a second package for an already used (measure, channel)
 a long note whose tail sits at the position of its head (two packages of one measure); header counters (event / note /
 measure count) as derived or as arbitrary numbers (real files count differently); header text fields with non-ASCII
 bytes or bytes after the NUL (only 'reads without raising' and the other clauses apply to them); cover and bitmap blobs
-after the packages; entry points read(bytes), read on an instance, read_file(str), read_file(pathlib.Path).
+after the packages; entry points read(bytes), read on an instance, read_file(str), read_file(pathlib.Path); every numeric
+header field over the full range of its declared type (negative / top bit set, extremes, byte boundaries, 0: HEADER_RANGE_SETS
+in the small family, 35% of the random headers); slot counts up to 32767, first note measure up to 1000000.
+File-system state and stale state (ojn_reads_do_not_interfere): read_file from ONE path that is overwritten by a longer /
+shorter other file between the reads; the first result edited through public operations before its bytes are read again.
 
 Clauses of `ojn_reads_do_not_interfere` (two files read one after the other in one process):
   earlier_result_changed_by_later_read    the map set returned for the first file differs after the second read
@@ -252,6 +256,24 @@ PLAIN_HEADER = dict(
 )
 
 
+# value sets for the numeric header fields: top bit set (negative), the extremes of each type, byte-boundary values
+HEADER_RANGE_SETS = [
+    dict(songid=-2, encode_version=-1.5, genre=-1, level=[-1, -2, -3, -4], old_encode_version=-29, old_songid=-25536,
+         old_genre=bytes(range(1, 21)).hex(), bmp_size=-19256, old_file_version=-1, time=[-121, -123, -125],
+         event_count=[-1, -2, -3], note_count=[-4, -5, -6], measure_count=[-7, -8, -9]),
+    dict(songid=2 ** 31 - 1, encode_version=0.0, genre=-(2 ** 31), level=[32767, -32768, 0, 1], old_encode_version=32767,
+         old_songid=-32768, old_genre="ff" * 20, bmp_size=2 ** 31 - 1, old_file_version=-(2 ** 31), time=[2 ** 31 - 1, 0, -(2 ** 31)],
+         event_count=[2 ** 31 - 1, -(2 ** 31), 0], note_count=[0, 1, 2], measure_count=[3, 4, 5]),
+    dict(songid=-(2 ** 31), encode_version=_f32(3.4028234663852886e38), genre=2 ** 31 - 1, level=[-32768, 32767, 255, 256],
+         old_encode_version=-32768, old_songid=32767, old_genre="80" * 20, bmp_size=-(2 ** 31), old_file_version=2 ** 31 - 1,
+         time=[0x8000, 0xFFFF, 0x10000]),
+    dict(songid=0x8000, encode_version=_f32(-1e-30), genre=0xFFFF, level=[128, -128, 127, -129], old_encode_version=-1,
+         old_songid=-1, bmp_size=0xFFFF, old_file_version=0x10000, time=[-0x8000, -0x8001, -1]),
+    dict(songid=0, encode_version=0.0, genre=0, level=[0, 0, 0, 0], old_encode_version=0, old_songid=0, bmp_size=0, old_file_version=0,
+         time=[0, 0, 0]),
+]
+
+
 def _pos_pkgs(channel, events):
     """packages of one channel holding `events` = [(rational measure position, ev)]: one package per measure, with the
     smallest slot count that hits every position of that measure."""
@@ -296,8 +318,10 @@ def _rand_count(rng, at_least=1):
         pool = SLOT_COUNTS
     elif r < 0.9:
         pool = SLOT_POOL
-    else:
+    elif r < 0.995:
         pool = [rng.randint(1, 400)]
+    else:
+        pool = [1000, 4096, 32767]  # up to the largest slot count the int16 field can carry
     pool = [c for c in pool if c >= at_least]
     return rng.choice(pool) if pool else 192 * ((at_least + 191) // 192)
 
@@ -326,6 +350,38 @@ def _rand_header(rng):
         n = rng.choice([1, 16, 200])
         hd["bmp"] = bytes(rng.randrange(256) for _ in range(n)).hex()
         hd["bmp_size"] = n
+    if rng.random() < 0.35:
+        # FULL VALUE RANGE of every numeric header field per its declared type (signed little-endian int32 / int16, float32):
+        # top bit set (negative), the extremes, 0 - the fields are decoded as laid out, whatever they hold
+        def i32():
+            return rng.choice([0, 1, -1, -2, 2 ** 31 - 1, -(2 ** 31), 0x7FFF, 0x8000, 0xFFFF, 0x10000, -0x8000, -0x8001,
+                               rng.randrange(-(2 ** 31), 2 ** 31), rng.randrange(-70000, 70000)])
+
+        def i16():
+            return rng.choice([0, 1, -1, -2, 32767, -32768, 127, 128, 255, 256, -128, -129, -25536, rng.randrange(-32768, 32768)])
+
+        def f32():
+            return _f32(rng.choice([0.0, -0.0, 1.0, -1.5, 2.9, -2.9, 1e-30, -1e30, 3.4028234663852886e38, 1.401298464324817e-45,
+                                    rng.uniform(-1000, 1000)]))
+
+        fields = [("songid", i32), ("genre", i32), ("old_encode_version", i16), ("old_songid", i16), ("bmp_size", i32),
+                  ("old_file_version", i32), ("encode_version", f32)]
+        every = rng.random() < 0.4
+        for key, draw in fields:
+            if key == "bmp_size" and "bmp" in hd:
+                continue  # a file that carries a bitmap blob states its size
+            if every or rng.random() < 0.4:
+                hd[key] = draw()
+        if every or rng.random() < 0.4:
+            hd["level"] = [i16() for _ in range(4)]
+        if every or rng.random() < 0.4:
+            hd["time"] = [i32() for _ in range(3)]
+        for key in ("event_count", "note_count", "measure_count"):
+            if every or rng.random() < 0.3:
+                hd[key] = [i32() for _ in range(3)]
+        if every or rng.random() < 0.4:
+            hd["old_genre"] = bytes(rng.choice([0, 1, 127, 128, 255, rng.randrange(256)]) for _ in range(20)).hex()
+        hd["full_range"] = True  # marker only (counted in the evidence); build_ojn does not read it
     return hd
 
 
@@ -337,7 +393,7 @@ def _rand_diff(rng, single, max_pkgs=40, kind="full"):
     if kind == "blank_packages":
         return [[m, rng.choice([1, 2, 5, 8, 9, 22]), rng.choice([0, 0, 1, 4, 192]), []] for m in sorted(rng.randrange(0, 8) for _ in range(rng.randint(1, 5)))]
     n_pk = rng.randint(1, max_pkgs)
-    s0 = rng.choice([0, 0, 0, 0, 0, 0, 1, 1, 2, 2, 5, 5, 100, 999])  # first measure with notes
+    s0 = rng.choice([0, 0, 0, 0, 0, 0, 1, 1, 2, 2, 5, 5, 100, 999] + ([32767, 65536, 1000000] if rng.random() < 0.15 else []))  # first measure with notes
     L = rng.randint(1, 12)  # measures with notes: s0 .. s0+L-1
     pk = []
     # tempo events
@@ -658,6 +714,8 @@ def _drive(rep, cases, quick_s, thorough_s):
         _stats(rep, den, acc)
         if "file" not in case:
             acc["entry_" + case.get("via", "read")] = acc.get("entry_" + case.get("via", "read"), 0) + 1
+            if case["header"].get("full_range") or any(case["header"].get(k, 0) < 0 for k in ("songid", "genre", "old_songid", "old_encode_version", "bmp_size")):
+                acc["headers_over_the_full_value_range"] = acc.get("headers_over_the_full_value_range", 0) + 1
         seen = set()
         for what, d in failed:
             if what not in seen:  # one record per clause and case
@@ -681,7 +739,9 @@ def _small_specs():
     part 3: difficulties that are not charted: every assignment of {charted, no package at all} to the three difficulties
             except all-charted [7] x 3 tempo sets (none / one event at 1 / events at 0 and 3/2), the charted ones holding
             a hit and a long note; then one difficulty with tempo packages only (each of the three) x the 2 non-empty
-            tempo sets, the other two charted [6]."""
+            tempo sets, the other two charted [6].
+    part 4: the numeric header fields over their declared range: 5 value sets (top bit set / extremes of int32, int16,
+            float32 / byte-boundary values / all zero) x 2 tempo sets, all three difficulties charted [10]."""
     tpos = [Fraction(0), Fraction(1), Fraction(3, 2), Fraction(4)]
     tempo_sets = [()]
     for p in tpos:
@@ -719,6 +779,10 @@ def _small_specs():
     for only_tempo in range(3):
         for ts in few[1:]:
             yield dict(header=PLAIN_HEADER, diffs=[charted(d, ts, notes=d != only_tempo) for d in range(3)])
+    # part 4: the value range of the numeric header fields (signed little-endian int32 / int16, float32 as laid out)
+    for hd in HEADER_RANGE_SETS:
+        for ts in few[:2]:
+            yield dict(header=dict(PLAIN_HEADER, **hd), diffs=[charted(d, ts) for d in range(3)])
 
 
 @bounded("C07", note="every file of a small family (<= 2 tempo events, one hit, at most one long note per difficulty; any of the difficulties without packages / with tempo packages only) against the exact OJN interpreter; gives minimal witnesses")
@@ -727,8 +791,10 @@ def ojn_small_files_vs_interpreter(rep):
     rep.bound = (f"all {len(specs)} files: tempo events (same in the 3 difficulties) on a subset (size <= 2) of positions {{0, 1, 3/2, 4}} with values 60/240 "
                  "(both assignments; 21 sets incl. none) x one hit at {0, 1/2, 2, 5} on a different column per difficulty [84 files], then additionally x one long "
                  "note head {0,1,3} -> tail {1/2, 7/3, 9/2} with the hit shifted by one measure per difficulty [504 files]; then every assignment of {charted, 0 packages} to "
-                 "the three difficulties except all-charted x 3 tempo sets [21 files] and one difficulty with tempo packages only x 2 tempo sets [6 files]; header tempo 120")
-    rep.rule = "a case is one OJN byte string (header + 3 difficulties); non-trivial when it holds at least 2 notes (every case of the first 588 holds >= 3; the file with three empty difficulties holds none)"
+                 "the three difficulties except all-charted x 3 tempo sets [21 files] and one difficulty with tempo packages only x 2 tempo sets [6 files]; header tempo 120; "
+                 "then the numeric header fields (song id, genre, levels, counters, old_* fields, bitmap size, durations, encode version) over their declared range: 5 value sets "
+                 "(top bit set i.e. negative / extremes of int32, int16, float32 / byte-boundary values / all zero) x 2 tempo sets [10 files]")
+    rep.rule = "a case is one OJN byte string (header + 3 difficulties); non-trivial when it holds at least 2 notes (every case of the first 588 and the last 10 holds >= 3; the file with three empty difficulties holds none)"
     rep.exhaustive = True
     _drive(rep, specs, 40, 300)
     if rep.extra.get("stopped_on_time_budget"):
@@ -740,14 +806,16 @@ def ojn_random_files_vs_interpreter(rep):
     rng = rep.rng
     N = rep.n(200, 3000)
     rep.bound = (f"{N} seeded random files: per difficulty 1-40 packages (0 for an uncharted difficulty, see below), note packages in non-decreasing measure order, tempo-channel packages anywhere in the file in 30% of the difficulties, "
-                 "channel-major file order in 10%; slot counts from {1,2,3,4,8,16,192} (70%), {5,6,7,12,24,32,48,64,96,384} (20%) or random 1-400 (10%), a 0-slot package in 10%; "
+                 "channel-major file order in 10%; slot counts from {1,2,3,4,8,16,192} (70%), {5,6,7,12,24,32,48,64,96,384} (20%) or random 1-400 (10%), rarely (0.5% of the packages) 1000 / 4096 / 32767 slots (the int16 maximum), a 0-slot package in 10%; "
                  "0-6 tempo events (a quarter of them after the last note measure) with values from a pool incl. 0.75 and 1000 or a random "
-                 "float32 in [30,480], in 15% of the multi-tempo difficulties a second tempo package for an already used measure; notes start at measure 0/1/2/5 (rarely 100/999) and span 1-12 "
+                 "float32 in [30,480], in 15% of the multi-tempo difficulties a second tempo package for an already used measure; notes start at measure 0/1/2/5 (rarely 100/999; 3% of the difficulties 32767 / 65536 / 1000000) and span 1-12 "
                  "measures, hits / head-tail pairs on columns 0-6, 6%: a column with one zero-length long note (head and tail package on one position), hit-only columns with a second "
                  "package for a used measure, channels 9-22 sometimes present; in 30% of the files each difficulty is one of {0 packages, tempo packages only, packages without events, "
                  "hits only, long notes only, full} (half of those files with at least one 0-package difficulty); random header fields, NUL-padded ASCII texts of length 0..field size "
                  "(20%: raw cp949 / Shift-JIS / Latin-1 / bytes after the NUL), header event / note / measure counters derived or (25%) arbitrary, 0/5/64 cover bytes, 15% a bitmap blob "
-                 "after the cover; 35% of the files have at most one tempo event (at measure 0) in every difficulty; entry point read(bytes) 4/7, read_file(str), "
+                 "after the cover; in 35% of the files the numeric header fields (song id, genre, levels, old_* fields, bitmap size, durations, counters, encode version, old_genre bytes) are drawn "
+                 "over the full range of their declared type (signed int32 / int16 with the top bit set, the extremes, byte-boundary values, 0; float32 incl. negative, tiny, the largest); "
+                 "35% of the files have at most one tempo event (at measure 0) in every difficulty; entry point read(bytes) 4/7, read_file(str), "
                  "read_file(Path), read on an instance 1/7 each")
     rep.rule = "a case is one OJN byte string and the entry point it is read through; non-trivial when it holds at least 2 notes"
 
@@ -778,8 +846,57 @@ def _snapshot(ms):
     return out
 
 
+def _mutate_result(ms):
+    """legitimate edits of a map set that was read: in place through the list properties / the stack, the header lists in
+    place, attributes assigned.  What they do to `ms` is other properties' business; a LATER read must not see them."""
+    try:
+        for m in ms.maps:
+            if len(m.hits):
+                m.hits.offset += 1000.5
+                m.hits.column = 6 - m.hits.column
+            if len(m.holds):
+                m.holds.length *= 2
+            if len(m.bpms):
+                m.bpms.bpm *= 2
+                m.bpms.offset += 3
+            if len(m.hits) or len(m.holds):
+                m.stack().offset -= 7
+        for name in ("level", "event_count", "note_count", "measure_count", "package_count", "duration", "note_offset"):
+            lst = getattr(ms, name, None)
+            if isinstance(lst, list) and lst:
+                lst[0] = 12345
+                lst.append(-1)
+        ms.title, ms.artist, ms.bpm, ms.song_id = "changed", "changed", 1.0, -5
+        ms.maps.reverse()
+        ms.maps.pop()
+    except Exception:  # noqa
+        pass
+
+
+def _read_same_path(path, b):
+    """FILE-SYSTEM STATE: the bytes are written over whatever the path holds already (a longer / shorter other file), then read_file"""
+    from reamber.o2jam.O2JMapSet import O2JMapSet
+
+    with open(path, "wb") as f:
+        f.write(b)
+    return O2JMapSet.read_file(path)
+
+
 def _run_pair(case):
-    """case = {first: spec, second: spec}: read first, read second, look at the first result again, read first again."""
+    """case = {first: spec, second: spec}: read first, read second, look at the first result again, read first again.
+    case["same_path"]: both files are read through read_file from ONE path, each written over the other.
+    case["mutate_first"]: the first result is edited (after it was compared) before the first bytes are read again."""
+    if case.get("same_path"):
+        fd, tmp = tempfile.mkstemp(suffix=".ojn", prefix="c07_same_")
+        os.close(fd)
+        try:
+            return _run_pair_inner(case, tmp)
+        finally:
+            os.unlink(tmp)
+    return _run_pair_inner(case, None)
+
+
+def _run_pair_inner(case, path):
     b1, b2 = build_ojn(case["first"]), build_ojn(case["second"])
     _selfcheck(case["first"], b1), _selfcheck(case["second"], b2)
     den1, den2 = den_ojn(b1), den_ojn(b2)
@@ -789,14 +906,21 @@ def _run_pair(case):
     with warnings.catch_warnings():
         warnings.simplefilter("ignore")
         try:
-            ms1 = _read_via(b1, case["first"].get("via", "read"))
+            rd = (lambda b, spec: _read_same_path(path, b)) if path else (lambda b, spec: _read_via(b, spec.get("via", "read")))
+            ms1 = rd(b1, case["first"])
             snap1 = _snapshot(ms1)
-            ms2 = _read_via(b2, case["second"].get("via", "read"))
-            ms1_again = _read_via(b1, case["first"].get("via", "read"))
+            if not path and case["second"].get("via") == "instance_read":
+                ms2 = ms1.read(b2)  # read called on the map set that the first read returned (an instance used before)
+            else:
+                ms2 = rd(b2, case["second"])
+            if case.get("mutate_first"):
+                now0 = _snapshot(ms1)
+                _mutate_result(ms1)
+            ms1_again = rd(b1, case["first"])
         except Exception as ex:
             multi = any(m["cls"] == "multi_tempo" for m in den1["maps"] + den2["maps"])
             return [(f"read_raises_{'multi_tempo' if multi else 'single_tempo'}", f"{type(ex).__name__}: {ex}")], den2, []
-        now = _snapshot(ms1)
+        now = now0 if case.get("mutate_first") else _snapshot(ms1)
         if now != snap1:
             k = next((i for i, (x, y) in enumerate(zip(snap1, now)) if x != y), min(len(snap1), len(now)))
             failed.append(("earlier_result_changed_by_later_read", f"part {k} of the first result (0 = header fields, then hits / holds / tempo points per difficulty) differs after reading the second file; {len(snap1)} parts before, {len(now)} after"))
@@ -813,7 +937,9 @@ def ojn_reads_do_not_interfere(rep):
     rng = rep.rng
     N = rep.n(40, 600)
     rep.bound = (f"{N} seeded pairs of random files (<= 12 packages per difficulty, otherwise as in ojn_random_files_vs_interpreter incl. difficulties without packages and all entry points); "
-                 "per pair: read A, read B, compare A's map set with its state before B was read, compare B with the interpreter, read A again")
+                 "per pair: read A, read B, compare A's map set with its state before B was read, compare B with the interpreter, read A again; "
+                 "30% of the pairs through read_file from ONE path (A written, read; B written over it - longer or shorter -, read; A written over it, read), "
+                 "B read through A's map set (`a.read(bytes_of_B)`) when B's entry point is read-on-an-instance; 30% edit A's map set (offsets / columns / lengths / tempo in place through the list properties and the stack, header lists in place, attributes, maps list) before A is read again")
     rep.rule = "a case is a pair of OJN byte strings; non-trivial when the second holds at least 2 notes"
     acc = {}
     for _ in range(N):
@@ -821,6 +947,14 @@ def ojn_reads_do_not_interfere(rep):
             acc["stopped_on_time_budget"] = True
             break
         case = dict(first=_rand_spec(rng, 12), second=_rand_spec(rng, 12))
+        x = rng.random()
+        if x < 0.3:
+            case["same_path"] = True
+        if rng.random() < 0.3:
+            case["mutate_first"] = True
+        for k in ("same_path", "mutate_first"):
+            if case.get(k):
+                acc[k] = acc.get(k, 0) + 1
         failed, den, flags = _run_pair(case)
         if den is None:
             acc["outside_domain"] = acc.get("outside_domain", 0) + 1
